@@ -37,8 +37,35 @@ def run_D(prop, tier):
     timeout = 20000 if tier == "quick" else 120000
     t0 = time.time()
     res = verify_many(quals, REPO, timeout_ms=timeout)
-    return dict(results=res, wall=time.time() - t0, assumed=assumed,
+    # lemma axioms used by these contracts that are proved outside z3 (Lean): re-checked on every run
+    lemmas = []
+    files = []
+    from .contracts import cc as _cc
+    if any(reg.contracts[q].file.endswith(("utils/cc.py", "utils/visits.py")) or q.endswith("subhypergraph_largest_component") for q in quals):
+        files = list(_cc.LEAN_LEMMAS)
+    for f in files:
+        lemmas.append(check_lean(f))
+    return dict(results=res, wall=time.time() - t0, assumed=assumed, lemmas=lemmas,
                 assumed_notes={q: reg.contracts[q].note for q in assumed})
+
+
+def check_lean(rel):
+    import shutil
+    import subprocess
+    path = os.path.join(VERIF, rel)
+    exe = shutil.which("lean")
+    if exe is None:
+        return dict(file=rel, checker="lean", status="not-run", detail="lean is not on PATH")
+    t0 = time.time()
+    try:
+        r = subprocess.run([exe, path], capture_output=True, text=True, timeout=900, cwd=os.path.dirname(path))
+        out = (r.stdout + r.stderr).strip()
+        ok = r.returncode == 0 and "error" not in out.lower() and "sorry" not in out.lower()
+        ver = subprocess.run([exe, "--version"], capture_output=True, text=True).stdout.strip()[:60]
+        return dict(file=rel, checker=ver, status="accepted" if ok else "rejected", detail=out[:600], time_s=round(time.time() - t0, 1),
+                    theorems=[ln.split()[1] for ln in open(path) if ln.startswith("theorem ")])
+    except Exception as ex:  # noqa: BLE001
+        return dict(file=rel, checker="lean", status="not-run", detail=f"{type(ex).__name__}: {ex}")
 
 
 def summarize_D(prop, d, lock):
@@ -138,6 +165,10 @@ def main(argv=None):
         print(f"CHECKER-ERROR property={prop}: nothing to run")
         return 3
     if d is not None:
+        bad = [l for l in d.get("lemmas", []) if l["status"] == "rejected"]
+        if bad:
+            print(f"CHECKER-ERROR property={prop}: Lean rejected {bad[0]['file']}: {bad[0]['detail'][:300]}")
+            return 3
         dsum = summarize_D(prop, d, lock)
         if a.update_baseline:
             new = sorted(n for n, st in dsum["by_name"].items() if st == "discharged")
@@ -230,7 +261,7 @@ def main(argv=None):
 
 
 def build_evidence(prop, tier, seed, meta, d, dsum, ctx, violations, wall):
-    from .pyvc.theory import THEORY
+    from .pyvc.theory import THEORY, EXTRA
     cov = {}
     assumptions = list(meta.get("assumptions", []))
     if ctx is not None:
@@ -248,12 +279,13 @@ def build_evidence(prop, tier, seed, meta, d, dsum, ctx, violations, wall):
                    functions_under_contract=dsum["functions"],
                    undecided=dsum["undecided"], hygiene_warnings=dsum["warnings"],
                    undischarged_not_in_baseline=dsum["new_undischarged"], failed=dsum["failed"],
-                   assumed_contracts=d["assumed_notes"],
+                   assumed_contracts=d["assumed_notes"], lemmas_checked_outside_z3=d.get("lemmas", []),
                    trusted_base=["pyvc encoding of the PyV subset (hv/pyvc, unverified; DESIGN.md §3.2/3.3)",
                                  "node labels modelled as integers (only = and < are used); weights as mathematical reals",
                                  "lists whose order is irrelevant are modelled as bags; dict order not modelled",
                                  "metadata dicts are opaque values without aliasing", "z3", "CPython ast",
                                  "termination is not proved"] + [f"theory axiom {n}" for n in THEORY] +
+                                [f"contract-module axiom {n}" for n in sorted(EXTRA)] +
                                 [f"assumed contract {q}: {n}" for q, n in d["assumed_notes"].items()])
         if ctx is None:
             names = sorted(dsum["by_name"])
